@@ -1,12 +1,17 @@
 package props
 
 import (
+	"bufio"
 	"bytes"
 	"encoding/base64"
 	"errors"
 	"fmt"
+	"io"
+	"net"
+	"strconv"
 	"strings"
 	"testing"
+	"time"
 
 	"github.com/emersion/go-smtp"
 	"pgregory.net/rapid"
@@ -418,6 +423,94 @@ func c09Gen(t *rapid.T) c09Case {
 	return c
 }
 
+// ---- server half: the connection fails in the middle of an exchange ----
+
+type c09FaultCase struct {
+	Implicit bool   `json:"implicit_tls"` // else plaintext with AllowInsecureAuth
+	LMTP     bool   `json:"lmtp,omitempty"`
+	NChal    int    `json:"nchal"` // challenges the mechanism wants answered (>= 1)
+	NResp    int    `json:"nresp"` // responses the client sends before the fault (< NChal)
+	IR       bool   `json:"ir"`
+	Fault    string `json:"fault"` // eof (half-close), abort, stall (silence past the 30 ms read timeout)
+}
+
+// c09FaultRun: everything up to the fault is sent in one segment; then the
+// client half-closes, resets, or goes silent until the server has reacted to
+// its read timeout. The mechanism has not finished, so the server must not
+// announce success.
+func c09FaultRun(c c09FaultCase) Verdict {
+	cfg := harness.Config{LMTP: c.LMTP, AllowInsecureAuth: !c.Implicit}
+	if c.Implicit {
+		cfg.TLS = "implicit"
+	}
+	if c.Fault == "stall" {
+		cfg.ReadTimeoutMs = 30
+	}
+	sc := harness.SASLScript{}
+	for i := 0; i < c.NChal; i++ {
+		sc.Challenges = append(sc.Challenges, []byte(fmt.Sprintf("challenge-%d", i)))
+	}
+	script := harness.Script{AuthSession: true, Mechs: []string{"XTEST"}, SASL: []harness.SASLScript{sc}, LMTPSession: c.LMTP}
+	r := harness.NewRig(cfg, script)
+	w, err := r.Dial()
+	if err != nil {
+		w.Finish()
+		return Verdict{Inconclusive: "dial: " + err.Error()}
+	}
+	var sb strings.Builder
+	sb.WriteString(greetWord(c.LMTP) + " cli\r\nAUTH XTEST")
+	if c.IR {
+		sb.WriteString(" " + b64([]byte("initial")))
+	}
+	sb.WriteString("\r\n")
+	for i := 0; i < c.NResp; i++ {
+		sb.WriteString(b64([]byte(fmt.Sprintf("response-%d", i))) + "\r\n")
+	}
+	w.Send([]byte(sb.String()))
+	switch c.Fault {
+	case "eof":
+		w.WaitQuiet()
+		w.CloseWrite()
+	case "abort":
+		w.WaitQuiet()
+		w.Abort()
+	case "stall":
+		// state-based: until the server has closed the connection
+		r.Hub.WaitUntil(func() bool { return w.S.ClosedLocked() }, harness.Watchdog)
+	}
+	rest, fin := w.Finish()
+	if !fin {
+		return finishFail(w)
+	}
+	v := Verdict{NonTrivial: true, Classes: []string{"fault_" + c.Fault, fmt.Sprintf("answered_%d_of_%d", c.NResp, c.NChal)}}
+	if p := r.Log.Panicked(); p != "" {
+		return failf("panic", "server logged a panic: %s", p)
+	}
+	out := append(append([]byte(nil), w.Out...), rest...)
+	rs, perr := harness.ParseRepliesLenient(w.Out)
+	_ = out
+	if perr != nil && c.Fault != "abort" {
+		return failf("reply-syntax", "replies do not parse: %v (%s)", perr, q(w.Out))
+	}
+	n334 := 0
+	for _, rp := range rs {
+		if rp.Code == 235 {
+			return failf("success-without-approval", "the connection failed (%s) after %d of %d challenges were answered, yet the server announced 235; replies %v", c.Fault, c.NResp, c.NChal, codes(rs))
+		}
+		if rp.Code == 334 {
+			n334++
+		}
+	}
+	if c.Fault != "abort" && n334 != c.NResp+1 {
+		return failf("challenges", "expected %d challenges before the fault, got %d; replies %v", c.NResp+1, n334, codes(rs))
+	}
+	nexts := eventsOf(r.B.Events(), "SASLNext", false)
+	if len(nexts) > c.NResp+1 {
+		return failf("mechanism-input", "the client sent %d octet strings, the mechanism received %d", c.NResp+1, len(nexts))
+	}
+	return v
+}
+
 // ---- client half ----
 
 type c09ClientCase struct {
@@ -576,7 +669,181 @@ func c09ClientRun(c c09ClientCase) Verdict {
 	if noopErr != nil {
 		return failf("usable", "after Auth (%s) the next command fails: %v", outcome, noopErr)
 	}
+	// the same exchange as a peer that reads the wire strictly sees it
+	if bad := c09StrictRun(c, wantServer, firstNil, outcome); bad != nil {
+		bad.Classes, bad.NonTrivial = v.Classes, v.NonTrivial
+		return *bad
+	}
 	return v
+}
+
+// c09StrictPeer is a reference AUTH server that reads the wire exactly as RFC
+// 4954 defines it: "=" stands for the empty string in the initial response
+// only, every other response is the base64 of the octets (an empty line for
+// none), "*" cancels. It plays the case's server script and records what it
+// decoded.
+type c09StrictPeer struct {
+	script harness.SASLScript
+	got    [][]byte
+	gotNil bool // no initial response
+	bad    string
+	done   chan struct{}
+}
+
+func (p *c09StrictPeer) note(what string) {
+	if p.bad == "" {
+		p.bad = what
+	}
+}
+
+func (p *c09StrictPeer) serve(conn net.Conn) {
+	defer close(p.done)
+	defer conn.Close()
+	br := bufio.NewReader(conn)
+	io.WriteString(conn, "220 strict ESMTP\r\n")
+	readLine := func() (string, bool) {
+		l, err := br.ReadString('\n')
+		if err != nil || !strings.HasSuffix(l, "\r\n") {
+			return "", false
+		}
+		return strings.TrimSuffix(l, "\r\n"), true
+	}
+	// The client answers every failed exchange - also one the server ended
+	// itself with a negative reply - with a "*" line (inherited from net/smtp
+	// and pinned by the stock suite's TestAuthFailed). That line arrives in
+	// command mode and is answered 500; C09 does not speak about it, so the
+	// peer lets exactly that one line pass.
+	afterRefusal := false
+	for {
+		line, ok := readLine()
+		if !ok {
+			return
+		}
+		up := strings.ToUpper(line)
+		if line == "*" && afterRefusal {
+			afterRefusal = false
+			io.WriteString(conn, "500 5.5.1 not in an exchange\r\n")
+			continue
+		}
+		afterRefusal = false
+		switch {
+		case strings.HasPrefix(up, "EHLO"):
+			io.WriteString(conn, "250-strict\r\n250 AUTH XTEST\r\n")
+		case strings.HasPrefix(up, "AUTH "):
+			f := strings.Split(line, " ")
+			if len(f) < 2 || len(f) > 3 || f[1] != "XTEST" {
+				p.note("malformed AUTH command " + strconv.Quote(line))
+				io.WriteString(conn, "501 5.5.4 malformed AUTH\r\n")
+				continue
+			}
+			var resp []byte
+			if len(f) == 2 {
+				p.gotNil = true
+			} else if f[2] == "=" {
+				resp = []byte{}
+			} else {
+				b, err := base64.StdEncoding.DecodeString(f[2])
+				if err != nil || len(b) == 0 {
+					p.note("initial response is not base64: " + strconv.Quote(f[2]))
+					io.WriteString(conn, "501 5.5.2 cannot decode\r\n")
+					continue
+				}
+				resp = b
+			}
+			p.got = append(p.got, resp)
+			failed := false
+			for _, ch := range p.script.Challenges {
+				io.WriteString(conn, "334 "+base64.StdEncoding.EncodeToString(ch)+"\r\n")
+				l, ok := readLine()
+				if !ok {
+					return
+				}
+				if l == "*" {
+					io.WriteString(conn, "501 5.0.0 cancelled\r\n")
+					failed = true
+					break
+				}
+				b, err := base64.StdEncoding.DecodeString(l)
+				if err != nil {
+					p.note("response is not base64: " + strconv.Quote(l))
+					io.WriteString(conn, "501 5.5.2 cannot decode\r\n")
+					failed = true
+					break
+				}
+				p.got = append(p.got, b)
+			}
+			if failed {
+				continue
+			}
+			if p.script.Final.OK() {
+				io.WriteString(conn, "235 2.7.0 ok\r\n")
+			} else {
+				io.WriteString(conn, "535 5.7.8 no\r\n")
+				afterRefusal = true
+			}
+		case strings.HasPrefix(up, "QUIT"):
+			io.WriteString(conn, "221 2.0.0 bye\r\n")
+			return
+		case up == "NOOP":
+			io.WriteString(conn, "250 2.0.0 ok\r\n")
+		default:
+			p.note("stray line in command mode: " + strconv.Quote(line))
+			io.WriteString(conn, "500 5.5.1 what\r\n")
+		}
+	}
+}
+
+// c09StrictRun conducts the same client exchange against the strict peer.
+func c09StrictRun(c c09ClientCase, wantServer [][]byte, firstNil bool, outcome string) *Verdict {
+	hub := harness.NewHub()
+	clEnd, svEnd := harness.Pair(hub)
+	peer := &c09StrictPeer{script: c.Server, done: make(chan struct{})}
+	go peer.serve(svEnd)
+	cl := smtp.NewClient(clEnd)
+	var authErr, noopErr error
+	finished := make(chan struct{})
+	go func() {
+		defer close(finished)
+		authErr = cl.Auth(&scriptedSASLClient{c: c})
+		noopErr = cl.Noop()
+	}()
+	select {
+	case <-finished:
+	case <-time.After(harness.Watchdog):
+		clEnd.Abort()
+		<-finished
+		return &Verdict{Inconclusive: "client call against the strict peer did not return (watchdog)"}
+	}
+	cl.Close()
+	clEnd.Close()
+	<-peer.done
+	if peer.bad != "" {
+		v := failf("wire-form", "a server reading AUTH strictly by RFC 4954 cannot follow the client: %s (Auth returned %v)", peer.bad, authErr)
+		return &v
+	}
+	if len(peer.got) != len(wantServer) {
+		v := failf("wire-form", "strict peer decoded %d octet strings, the client mechanism produced %d (outcome %s, Auth returned %v)", len(peer.got), len(wantServer), outcome, authErr)
+		return &v
+	}
+	for i := range wantServer {
+		if !bytes.Equal(peer.got[i], wantServer[i]) {
+			v := failf("wire-form", "strict peer decoded %q for step %d, the client mechanism produced %q", peer.got[i], i, wantServer[i])
+			return &v
+		}
+	}
+	if peer.gotNil != firstNil {
+		v := failf("wire-form", "initial response: strict peer saw none=%v, the mechanism gave none=%v", peer.gotNil, firstNil)
+		return &v
+	}
+	if (outcome == "success") != (authErr == nil) {
+		v := failf("client-result", "against the strict peer the exchange ends in %s but Auth returned %v", outcome, authErr)
+		return &v
+	}
+	if noopErr != nil {
+		v := failf("usable", "after Auth (%s) against the strict peer the next command fails: %v", outcome, noopErr)
+		return &v
+	}
+	return nil
 }
 
 func c09GenClient(t *rapid.T) c09ClientCase {
@@ -611,6 +878,7 @@ func c09GenClient(t *rapid.T) c09ClientCase {
 }
 
 var (
+	c09Fault  *subCheck[c09FaultCase]
 	c09Sub    *subCheck[c09Case]
 	c09Client *subCheck[c09ClientCase]
 )
@@ -619,12 +887,13 @@ func init() {
 	registrars = append(registrars, func() {
 		c09Sub = newSub("C09", "server", c09Run)
 		c09Client = newSub("C09", "client", c09ClientRun)
+		c09Fault = newSub("C09", "fault", c09FaultRun)
 	})
 }
 
 func TestC09(t *testing.T) {
 	registerAll()
-	st.Rule = "server half: cases = (TLS state none/available/implicit, AllowInsecureAuth, auth-capable backend, scripted server mechanisms with 0-3 arbitrary challenges and success/535/plain-error verdicts, history of greet/AUTH/NOOP/STARTTLS acts with initial response present/absent/'='/bad base64 and responses base64/empty/'='/bad base64/'*'); client half: Client.Auth with scripted client mechanism (initial response nil/empty/octets, responses nil/empty/octets, error at a step) against the real server; non-trivial = exchange with >= 1 challenge OR a not-allowed configuration OR a second AUTH; distinct = hash of the whole case"
+	st.Rule = "server half: cases = (TLS state none/available/implicit, AllowInsecureAuth, auth-capable backend, scripted server mechanisms with 0-3 arbitrary challenges and success/535/plain-error verdicts, history of greet/AUTH/NOOP/STARTTLS acts with initial response present/absent/'='/bad base64 and responses base64/empty/'='/bad base64/'*'); client half: Client.Auth with scripted client mechanism (initial response nil/empty/octets, responses nil/empty/octets, error at a step) against the real server and against a reference peer that reads the wire strictly by RFC 4954; enumerated: connection fault (half-close, reset, silence past the read timeout) after k of n challenges were answered; non-trivial = exchange with >= 1 challenge OR a not-allowed configuration OR a second AUTH; distinct = hash of the whole case"
 	if !regress(t, "C09") {
 		return
 	}
@@ -633,4 +902,28 @@ func TestC09(t *testing.T) {
 		return
 	}
 	c09Client.rapidCheck(t, pickTier(2000, 15000), c09GenClient)
+	if t.Failed() {
+		return
+	}
+	// connection faults in the middle of an exchange: small enough to enumerate
+	idx := 0
+	for _, implicit := range []bool{false, true} {
+		for _, lmtp := range []bool{false, true} {
+			for nchal := 1; nchal <= 3; nchal++ {
+				for nresp := 0; nresp < nchal; nresp++ {
+					for _, ir := range []bool{false, true} {
+						for _, fault := range []string{"eof", "abort", "stall"} {
+							idx++
+							if !mine(idx) {
+								continue
+							}
+							if !c09Fault.one(t, c09FaultCase{Implicit: implicit, LMTP: lmtp, NChal: nchal, NResp: nresp, IR: ir, Fault: fault}) {
+								return
+							}
+						}
+					}
+				}
+			}
+		}
+	}
 }
